@@ -78,7 +78,7 @@ def steps_of(tr):
         chunk = data[i * size:(i + 1) * size]
         out.append({"tid": tr["tid"], "c": tr["c"], "method": tr["method"], "path": tr["path"], "query": tr["query"],
                     "b1": [i, 1 if i < n - 1 else 0, tr["szx"]], "payload": chunk.hex(), "b2": None,
-                    "rlen": tr["rlen"]})
+                    "rlen": tr["rlen"], "rtag": tr.get("rtag")})
     return out
 
 
@@ -166,6 +166,11 @@ def gen(r, tier):
                 # of its own at the same time -- only the endpoint tells the two assemblies apart
                 tr = dict(prev_tr, tid=tid, seed=tid * 7 + 1,
                           c=r.choice([c for c in range(nclients) if c != prev_tr["c"]]))
+            elif prev_tr is not None and r.chance(0.25):
+                # two transfers of ONE endpoint to one resource that differ only in their Request-Tag option (RFC 9175:
+                # that is what the option is for -- an ordinary cache-key option as far as the server is concerned)
+                prev_tr.setdefault("rtag", "a1")
+                tr = dict(prev_tr, tid=tid, seed=tid * 7 + 1, rtag="b2%02x" % tid)
             prev_tr = tr
             seqs.append(mutate_steps(r, steps_of(tr)))
     # interleave
@@ -309,6 +314,9 @@ def execute(sim, scn):
             opts.append((rc.BLOCK2, rc.block_bytes(op["b2"][0], op["b2"][1], op["b2"][2])))
         if op["b1"] is not None:
             opts.append((rc.BLOCK1, rc.block_bytes(op["b1"][0], op["b1"][1], op["b1"][2])))
+        if op.get("rtag"):
+            opts.append((292, bytes.fromhex(op["rtag"])))
+            sim.probe("request_tag")
         m = {"type": rc.CON, "code": METHODS[op["method"]], "mid": 0x2000 + i, "token": bytes([0xB0, i >> 8, i & 0xFF]),
              "options": opts, "payload": bytes.fromhex(op["payload"])}
         cl.send(srv, msg=m, fate=["at", op["t"]])
@@ -353,7 +361,7 @@ def execute(sim, scn):
             sub = "gap-or-overlap" if (op["b1"] is not None and op["b1"][0] > 0) else "other"
             sim.violation("C06/server-error-%s" % sub, dict(ident, code=rc.code_str(code)))
             return
-        key = (op["c"], op["method"], op["path"], op["query"], op["rlen"])
+        key = (op["c"], op["method"], op["path"], op["query"], op["rlen"], op.get("rtag"))
         if prev_key is not None and key != prev_key and key in keys_seen:
             sim.probe("interleaved_keys")
         keys_seen.add(key)
